@@ -46,7 +46,7 @@ class SDevice(Device):
   _rate_clip = (None, None)
 
   def __init__(self, id, length, bounds, cbounds=None, **kwargs):
-    super().__init__(id, length, bounds, cbounds=None, **kwargs)
+    super().__init__(id, length, bounds, cbounds, **kwargs)
     self._sustainment_matrix = sustainment_matrix(self.sustainment, len(self))
 
   def costv(self, s, p):
